@@ -111,6 +111,8 @@ def history(rng, length, tick_ms, codes_ok=(200, 201, 404), codes_bad=(500, 502,
                 code = rng.choice(codes_bad)
             else:
                 code = rng.choice(codes_ok + codes_bad)
+            if rng.random() < 0.12:   # any other status a handler or an error handler below can produce (499: client went away)
+                code = rng.choice([204, 301, 304, 400, 429, 499, 499, 501, 503, 505, 599])
             if rng.random() < 0.06:
                 steps.append({"op": "finish", "r": r, "abort": True})     # the protected handler aborts instead of answering
             else:
